@@ -283,6 +283,59 @@ def policy_layout_roundtrips(ctx: Ctx, n: int):
                 break
 
 
+def generic_model_roundtrips(ctx: Ctx, eng: morph.Engine):
+    """generic dataclass hierarchies: type variables threaded, swapped and partially bound through parents, inherited fields
+    re-declared with other container types that still mention a type variable; parametrised and bare; values whose container
+    classes tell the declared type apart from the parent's (a list must come back as a list, not as the parent's tuple)"""
+    import dataclasses
+    from typing import Generic, Optional, Sequence, TypeVar
+    T, K, V = TypeVar("T"), TypeVar("K"), TypeVar("V")
+
+    @dataclasses.dataclass
+    class Page(Generic[T]):
+        items: Sequence[T]
+        total: int
+
+    @dataclasses.dataclass
+    class ListPage(Page[T], Generic[T]):
+        items: list[T]
+
+    @dataclasses.dataclass
+    class Box(Generic[T]):
+        value: Optional[T]
+
+    @dataclasses.dataclass
+    class KeyedBox(Box[int], Generic[K]):
+        value: dict[str, K]
+
+    @dataclasses.dataclass
+    class Pair(Generic[K, V]):
+        first: K
+        second: V
+
+    @dataclasses.dataclass
+    class Swapped(Pair[V, K], Generic[K, V]):
+        pass
+
+    @dataclasses.dataclass
+    class Deep(Swapped[int, T], Generic[T]):
+        extra: list[T]
+    for c in (Page, ListPage, Box, KeyedBox, Pair, Swapped, Deep):
+        c.__module__ = __name__
+    cases = [
+        (ListPage[int], ListPage(items=[1, 2, 3], total=3)), (ListPage[str], ListPage(items=["a"], total=1)),
+        (Page[int], Page(items=(1, 2), total=2)), (KeyedBox[int], KeyedBox(value={"k": 1})), (KeyedBox[str], KeyedBox(value={"k": "v"})),
+        (Box[str], Box(value=None)), (Box[list[int]], Box(value=[1])), (Pair[int, str], Pair(first=1, second="a")),
+        (Swapped[int, str], Swapped(first="a", second=1)), (Deep[str], Deep(first="s", second=1, extra=["x"])),
+        (ListPage, ListPage(items=[1, "a"], total=2)), (Swapped, Swapped(first=[1], second={"a": 1})),
+    ]
+    for hint, x in cases:
+        sp = morph.Spec(hint=hint, ty=["generic-model"], gen=None, kind="model")
+        ctx.note_case({"generic": repr(hint)}, nontrivial=True, kind="roundtrip:generic-model")
+        for key in morph.CONFIGS:
+            roundtrip(ctx, eng, sp, x, key, via_json=False)
+
+
 def _only_empty_branches_added(case, x, x2) -> bool:
     """is the loaded object the original plus known BRANCH keys of the layout holding empty trees in its extra data?
     (the recorded finding; anything else is a different round-trip failure)"""
@@ -455,6 +508,7 @@ def run(ctx: Ctx):
     enum_roundtrips(ctx, eng, ctx.budget(60, 1200))
     self_models(ctx, eng, ctx.budget(40, 600))
     policy_layout_roundtrips(ctx, ctx.budget(120, 2000))
+    generic_model_roundtrips(ctx, eng)
 
 
 def search(ctx: Ctx):
@@ -464,6 +518,7 @@ def search(ctx: Ctx):
     enum_roundtrips(ctx, eng, 600)
     self_models(ctx, eng, 300)
     policy_layout_roundtrips(ctx, 1000)
+    generic_model_roundtrips(ctx, eng)
     for spec in eng.gen_specs(2000, 4, literal_unions=True):
         if eng.real.dump("DISABLE", True, spec.hint, None).get("r") == "no-dumper":
             continue
